@@ -1,6 +1,7 @@
 package main
 
 import (
+	"go/types"
 	"fmt"
 	"go/token"
 	"sort"
@@ -40,7 +41,6 @@ type originCtx struct {
 // external results: protected or allowed origins (one line of reason each).
 var externalOrigins = map[string]string{
 	"invoke:ngo/registry.Repository.Resolve":        "protected:descriptor returned by Repository.Resolve",
-	"invoke:ngo.signerAnnotation.PluginAnnotations": "allowed:manifest annotation map owned by the signer object",
 	"invoke:ngo.Signer.Sign":                        "allowed:values returned by the signer",
 	"invoke:ngo.BlobSigner.SignBlob":                "allowed:values returned by the signer",
 	"maps.Clone":                                    "fresh",
@@ -270,6 +270,10 @@ func (oc *originCtx) callResult(fn *ssa.Function, call *ssa.Call, idx int, depth
 	name := calleeName(call)
 	if o, ok := externalOrigins[name]; ok {
 		return []string{o}
+	}
+	// the optional annotation interface probed on the signer (whatever the module calls it)
+	if call.Call.IsInvoke() && call.Call.Method.Name() == "PluginAnnotations" && strings.HasPrefix(name, "invoke:ngo.") {
+		return []string{"allowed:manifest annotation map owned by the signer object"}
 	}
 	if bi, ok := call.Call.Value.(*ssa.Builtin); ok {
 		switch bi.Name() {
@@ -649,11 +653,23 @@ func c11Merge(c *Ctx, M *ssa.Function) {
 	_, h := hasLabel(labels, "F(ok("+dP+".Annotations["+key+"]))")
 	c.Check(h, "merge/existing-key", "per-pair gate: a key already present in the artifact's annotations is refused", lsite, "an existing annotation can be overwritten; per-iteration facts: "+summarizeLabels(labels, 6))
 	// reserved prefixes: inner loop over the reserved list with F(HasPrefix(key, prefix)) per element, entered on every iteration
-	inner := findLoop(M, func(d string) bool { return strings.HasPrefix(d, "global:ngo.reservedAnnotationPrefixes") })
+	// the reserved prefixes: the package-level list of strings that holds the notary prefix
+	rp := "global:ngo." + w.globalWhere("", func(t types.Type) bool {
+		switch x := t.Underlying().(type) {
+		case *types.Array:
+			b, ok := x.Elem().Underlying().(*types.Basic)
+			return ok && b.Kind() == types.String
+		case *types.Slice:
+			b, ok := x.Elem().Underlying().(*types.Basic)
+			return ok && b.Kind() == types.String
+		}
+		return false
+	})
+	inner := findLoop(M, func(d string) bool { return strings.HasPrefix(d, rp) })
 	okRes := false
 	if inner != nil {
 		il, _ := fi.mustPassBetween([]int{inner.Body.Index}, map[int]bool{inner.Header.Index: true})
-		_, h1 := hasLabel(il, "F(call:strings.HasPrefix("+key+",global:ngo.reservedAnnotationPrefixes[")
+		_, h1 := hasLabel(il, "F(call:strings.HasPrefix("+key+","+rp+"[")
 		cut := map[edgeKey]bool{}
 		cutInto(fi, inner.Header, cut)
 		thru := !fi.reachHit([]state{{loop.Body.Index, 0, -1}}, cut, map[int]bool{loop.Header.Index: true})
